@@ -608,7 +608,7 @@ Proof.
   assert (VK : forall k, k <> i -> nget vs' k = nget (st_vars s) k) by (intros k NE; unfold vs'; apply nget_nset_other; auto).
   assert (SIM : sim s' (nset av i (Some (Some t))) abl).
   { constructor; cbn [st_vars st_led st_heap st_ser st_blk s'].
-    - unfold vs'. rewrite nset_length. etransitivity; [exact L | symmetry; apply nset_length].
+    - unfold vs'. etransitivity; [apply nset_length|]. etransitivity; [exact L | symmetry; apply nset_length].
     - intros k. unfold vs'. rewrite !nget_nset by assumption. destruct (Nat.eqb i k); [split; discriminate | apply (sim_scope _ _ _ S)].
     - intros k t' Hk. destruct (NEWOWN k t' Hk) as [[-> ->] | [NE Hk']].
       + exists p. split; [exact VI|]. split; [exact PT|]. split.
@@ -667,4 +667,358 @@ Proof.
       { pose proof (pay_aligned_spill p K PO) as X. rewrite PA in X. unfold p in X at 1 2. simpl in X. apply X. unfold p. reflexivity. }
       rewrite A2. destruct (from_pool K); reflexivity. }
   split; [rewrite CNT; simpl; lia | reflexivity].
+Qed.
+
+(* ============================================================================================ whole runs *)
+Lemma step_sim o s av abl x av' aevs : oracle_ok o -> sim s av abl -> types_ok [x] = true ->
+  astep av x = Some (av', aevs) -> step_goal o s av abl x av' aevs.
+Proof.
+  intros OK S T H. destruct x.
+  - simpl in T. rewrite andb_true_r in T. eapply step_make; eauto.
+  - eapply step_default; eauto.
+  - eapply step_movector; eauto.
+  - eapply step_moveassign; eauto.
+  - eapply step_call; eauto.
+  - eapply step_cleanup; eauto.
+  - eapply step_drop; eauto.
+Qed.
+
+Lemma abandoned_app a b : abandoned (a ++ b) = abandoned a ++ abandoned b.
+Proof. unfold abandoned. apply flat_map_app. Qed.
+Lemma destroyed_app a b : destroyed (a ++ b) = destroyed a ++ destroyed b.
+Proof. unfold destroyed. apply flat_map_app. Qed.
+Lemma invoked_app a b : invoked (a ++ b) = invoked a ++ invoked b.
+Proof. unfold invoked. apply flat_map_app. Qed.
+
+Lemma run_sim o ops : forall s av abl av' aevss, oracle_ok o -> sim s av abl -> types_ok ops = true ->
+  arun av ops = Some (av', aevss) ->
+  exists s' evss abl', run o s ops = Some (s', evss) /\ sim s' av' abl' /\
+    map project evss = map (filter not_abandon) aevss /\
+    forallb (forallb ev_aligned) evss = true /\
+    cnt s' av' = cnt s av + Z.of_nat (length (abandoned (concat aevss))) /\
+    (abandoned (concat aevss) = [] -> abl' = abl).
+Proof.
+  induction ops as [|x r IH]; intros s av abl av' aevss OK S T H; simpl in H.
+  - inversion H; subst. exists s, [], abl. simpl.
+    split; [reflexivity|]. split; [exact S|]. split; [reflexivity|]. split; [reflexivity|]. split; [lia | reflexivity].
+  - destruct (astep av x) as [[av1 e]|] eqn:E; [|discriminate].
+    destruct (arun av1 r) as [[av2 es]|] eqn:E2; [|discriminate]. inversion H; subst; clear H.
+    simpl in T. apply andb_true_iff in T. destruct T as [T1 T2].
+    assert (T1' : types_ok [x] = true) by (simpl; rewrite T1; reflexivity).
+    destruct (step_sim o s av abl x av1 e OK S T1' E) as [s1 [ev1 [abl1 [St [S1 [P1 [A1 [C1 B1]]]]]]]].
+    destruct (IH s1 av1 abl1 av' es OK S1 T2 E2) as [s2 [evs [abl2 [Rn [S2 [P2 [A2 [C2 B2]]]]]]]].
+    exists s2, (ev1 :: evs), abl2. simpl. rewrite St, Rn.
+    split; [reflexivity|]. split; [exact S2|]. split; [rewrite P1, P2; reflexivity|].
+    split; [rewrite A1, A2; reflexivity|]. rewrite abandoned_app, app_length, Nat2Z.inj_add. split; [lia|].
+    intros N. apply app_eq_nil in N. destruct N as [N1 N2]. rewrite B2 by exact N2. apply B1. exact N1.
+Qed.
+
+(* ============================================================================================ the protocol itself *)
+Require Import Coq.Sorting.Permutation.
+
+Definition otag (v : avar) : list Z := match v with Some (Some t) => [t] | _ => [] end.
+
+Lemma owned_cons v av : owned (v :: av) = otag v ++ owned av.
+Proof. unfold owned. simpl. destruct v as [[t|]|]; reflexivity. Qed.
+
+Lemma owned_nset_perm av i v : (i < length av)%nat ->
+  Permutation (otag (nget av i) ++ owned (nset av i v)) (otag v ++ owned av).
+Proof.
+  revert i; induction av as [|a r IH]; intros [|k] L; simpl in L; try lia.
+  - simpl nset. unfold nget; simpl nth. rewrite !owned_cons. apply Permutation_app_swap_app.
+  - simpl nset. unfold nget; simpl nth. rewrite !owned_cons. fold (nget r k).
+    rewrite Permutation_app_swap_app. rewrite (IH k) by lia. apply Permutation_app_swap_app.
+Qed.
+
+Lemma owned_repeat_none n : owned (repeat None n) = [].
+Proof. induction n; simpl; auto. Qed.
+
+(* every tag that enters (owned before, or made by the operation) leaves as destroyed / abandoned / still owned *)
+Lemma astep_perm av x av' e : astep av x = Some (av', e) ->
+  Permutation (make_tags [x] ++ owned av) (destroyed e ++ abandoned e ++ owned av').
+Proof.
+  intros H. destruct x as [i sz al t c|i|i j|i j|i|i|i]; unfold astep in H; simpl make_tags.
+  - destruct (in_range av i) eqn:IR; simpl in H; [|discriminate]. apply in_range_true in IR.
+    destruct (nget av i) eqn:E; [discriminate|]. inversion H; subst; simpl.
+    pose proof (owned_nset_perm av i (Some (Some t)) IR) as P. rewrite E in P. simpl in P. symmetry. exact P.
+  - destruct (in_range av i) eqn:IR; simpl in H; [|discriminate]. apply in_range_true in IR.
+    destruct (nget av i) eqn:E; [discriminate|]. inversion H; subst; simpl.
+    pose proof (owned_nset_perm av i (Some None) IR) as P. rewrite E in P. simpl in P. symmetry. exact P.
+  - destruct (in_range av i) eqn:IR; simpl in H; [|discriminate]. apply in_range_true in IR.
+    destruct (nget av i) eqn:E; [discriminate|]. destruct (nget av j) as [xj|] eqn:Ej; [|discriminate].
+    inversion H; subst; simpl. assert (NE : i <> j) by (intros ->; congruence).
+    pose proof (nget_in_range _ _ _ Ej) as JR.
+    pose proof (owned_nset_perm av i (Some xj) IR) as P1. rewrite E in P1. simpl in P1.
+    pose proof (owned_nset_perm (nset av i (Some xj)) j (Some None)) as P2.
+    rewrite nset_length, nget_nset_other, Ej in P2 by auto. specialize (P2 JR). simpl in P2.
+    apply (Permutation_app_inv_l (otag (Some xj))). rewrite P2. rewrite P1. reflexivity.
+  - destruct (nget av i) as [xi|] eqn:E; [|discriminate]. destruct (nget av j) as [xj|] eqn:Ej; [|discriminate].
+    pose proof (nget_in_range _ _ _ E) as IR. pose proof (nget_in_range _ _ _ Ej) as JR.
+    destruct (Nat.eqb i j) eqn:Eij; inversion H; subst; simpl; [reflexivity|]. apply Nat.eqb_neq in Eij.
+    pose proof (owned_nset_perm av i (Some xj) IR) as P1. rewrite E in P1.
+    pose proof (owned_nset_perm (nset av i (Some xj)) j (Some None)) as P2.
+    rewrite nset_length, nget_nset_other, Ej in P2 by auto. specialize (P2 JR). simpl app in P2 at 2.
+    assert (D : destroyed (abandon xi) = []) by (destruct xi; reflexivity). rewrite D. simpl app at 1.
+    assert (A : abandoned (abandon xi) = otag (Some xi)) by (destruct xi; reflexivity). rewrite A.
+    apply (Permutation_app_inv_l (otag (Some xj))).
+    rewrite (Permutation_app_swap_app (otag (Some xj)) (otag (Some xi))). rewrite P2. symmetry. exact P1.
+  - destruct (nget av i) as [[t|]|] eqn:E; try discriminate. inversion H; subst; simpl.
+    pose proof (nget_in_range _ _ _ E) as IR.
+    pose proof (owned_nset_perm av i (Some None) IR) as P. rewrite E in P. simpl in P. symmetry. exact P.
+  - destruct (nget av i) as [[t|]|] eqn:E; try discriminate. inversion H; subst; simpl.
+    pose proof (nget_in_range _ _ _ E) as IR.
+    pose proof (owned_nset_perm av i (Some None) IR) as P. rewrite E in P. simpl in P. symmetry. exact P.
+  - destruct (nget av i) as [xi|] eqn:E; [|discriminate]. inversion H; subst.
+    pose proof (nget_in_range _ _ _ E) as IR.
+    pose proof (owned_nset_perm av i None IR) as P. rewrite E in P. simpl in P.
+    assert (D : destroyed (abandon xi) = []) by (destruct xi; reflexivity). rewrite D. simpl app at 1 2.
+    assert (A : abandoned (abandon xi) = otag (Some xi)) by (destruct xi; reflexivity). rewrite A. symmetry. exact P.
+Qed.
+
+Lemma make_tags_cons x r : make_tags (x :: r) = make_tags [x] ++ make_tags r.
+Proof. unfold make_tags. simpl. rewrite app_nil_r. reflexivity. Qed.
+
+Lemma arun_perm ops : forall av av' es, arun av ops = Some (av', es) ->
+  Permutation (make_tags ops ++ owned av) (destroyed (concat es) ++ abandoned (concat es) ++ owned av').
+Proof.
+  induction ops as [|x r IH]; intros av av' es H; simpl in H.
+  - inversion H; subst. reflexivity.
+  - destruct (astep av x) as [[av1 e]|] eqn:E; [|discriminate].
+    destruct (arun av1 r) as [[av2 es2]|] eqn:E2; [|discriminate]. inversion H; subst; clear H.
+    pose proof (astep_perm _ _ _ _ E) as P1. pose proof (IH _ _ _ E2) as P2.
+    rewrite make_tags_cons. simpl concat. rewrite destroyed_app, abandoned_app.
+    (* (m1 ++ mr) ++ owned av  ~  mr ++ (m1 ++ owned av) ~ mr ++ (d1 ++ a1 ++ owned av1) ~ d1 ++ a1 ++ (mr ++ owned av1) ~ ... *)
+    rewrite <- app_assoc. rewrite (Permutation_app_swap_app (make_tags [x]) (make_tags r)). rewrite P1.
+    rewrite (Permutation_app_swap_app (make_tags r)). rewrite (Permutation_app_swap_app (make_tags r) (abandoned e)).
+    rewrite P2. rewrite <- !app_assoc.
+    apply Permutation_app_head.
+    rewrite (Permutation_app_swap_app (abandoned e)). apply Permutation_app_head. reflexivity.
+Qed.
+
+(* invocations are a sub-multiset of destructions (a call invokes and destroys, a clean-up only destroys) *)
+Lemma astep_invoked_sub av x av' e : astep av x = Some (av', e) -> exists rest, Permutation (destroyed e) (invoked e ++ rest).
+Proof.
+  intros H. destruct x as [i sz al t c|i|i j|i j|i|i|i]; unfold astep in H.
+  - destruct (negb (in_range av i)); [discriminate|]. destruct (nget av i); inversion H; subst. exists []. reflexivity.
+  - destruct (negb (in_range av i)); [discriminate|]. destruct (nget av i); inversion H; subst. exists []. reflexivity.
+  - destruct (negb (in_range av i)); [discriminate|]. destruct (nget av i); [discriminate|].
+    destruct (nget av j); inversion H; subst. exists []. reflexivity.
+  - destruct (nget av i) as [xi|]; [|discriminate]. destruct (nget av j); [|discriminate].
+    destruct (Nat.eqb i j); inversion H; subst; exists []; destruct xi; reflexivity.
+  - destruct (nget av i) as [[t|]|]; inversion H; subst. exists []. reflexivity.
+  - destruct (nget av i) as [[t|]|]; inversion H; subst. exists [t]. reflexivity.
+  - destruct (nget av i) as [xi|]; inversion H; subst. exists []. destruct xi; reflexivity.
+Qed.
+
+Lemma arun_invoked_sub ops : forall av av' es, arun av ops = Some (av', es) ->
+  exists rest, Permutation (destroyed (concat es)) (invoked (concat es) ++ rest).
+Proof.
+  induction ops as [|x r IH]; intros av av' es H; simpl in H.
+  - inversion H; subst. exists []. reflexivity.
+  - destruct (astep av x) as [[av1 e]|] eqn:E; [|discriminate].
+    destruct (arun av1 r) as [[av2 es2]|] eqn:E2; [|discriminate]. inversion H; subst; clear H.
+    destruct (astep_invoked_sub _ _ _ _ E) as [r1 P1]. destruct (IH _ _ _ E2) as [r2 P2].
+    exists (r1 ++ r2). simpl concat. rewrite destroyed_app, invoked_app, P1, P2. rewrite <- !app_assoc.
+    apply Permutation_app_head. rewrite (Permutation_app_swap_app r1). reflexivity.
+Qed.
+
+Lemma NoDup_app_l {A} (l l' : list A) : NoDup (l ++ l') -> NoDup l.
+Proof.
+  induction l as [|a l IH]; simpl; intros H; [constructor|].
+  inversion H as [|x xs Hn Hd]; subst. constructor; [|apply IH; exact Hd].
+  intros I. apply Hn. apply in_or_app. left. exact I.
+Qed.
+
+(* with distinct tags: every callable is destroyed at most once, invoked at most once, and ends in exactly one of
+   the three classes *)
+Lemma protocol_once nv ops av es : arun (ainit nv) ops = Some (av, es) -> NoDup (make_tags ops) ->
+  NoDup (invoked (concat es)) /\ NoDup (destroyed (concat es)) /\
+  Permutation (make_tags ops) (destroyed (concat es) ++ abandoned (concat es) ++ owned av).
+Proof.
+  intros H ND. pose proof (arun_perm _ _ _ _ H) as P. unfold ainit in P. rewrite owned_repeat_none, app_nil_r in P.
+  assert (ND2 : NoDup (destroyed (concat es) ++ abandoned (concat es) ++ owned av)) by (eapply Permutation_NoDup; eauto).
+  pose proof (NoDup_app_l _ _ ND2) as ND3.
+  destruct (arun_invoked_sub _ _ _ _ H) as [rest PI].
+  split; [|split; [exact ND3 | exact P]].
+  assert (ND4 : NoDup (invoked (concat es) ++ rest)) by (eapply Permutation_NoDup; eauto).
+  apply (NoDup_app_l _ _ ND4).
+Qed.
+
+(* which operations invoke: exactly operator() on a variable that owns a callable *)
+Lemma astep_invokes_on_call av x av' e : astep av x = Some (av', e) ->
+  invoked e = match x with OCall i => otag (nget av i) | _ => [] end.
+Proof.
+  intros H. destruct x as [i sz al t c|i|i j|i j|i|i|i]; unfold astep in H.
+  - destruct (negb (in_range av i)); [discriminate|]. destruct (nget av i); inversion H; subst. reflexivity.
+  - destruct (negb (in_range av i)); [discriminate|]. destruct (nget av i); inversion H; subst. reflexivity.
+  - destruct (negb (in_range av i)); [discriminate|]. destruct (nget av i); [discriminate|].
+    destruct (nget av j); inversion H; subst. reflexivity.
+  - destruct (nget av i) as [xi|]; [|discriminate]. destruct (nget av j); [|discriminate].
+    destruct (Nat.eqb i j); inversion H; subst; destruct xi; reflexivity.
+  - destruct (nget av i) as [[t|]|]; inversion H; subst. reflexivity.
+  - destruct (nget av i) as [[t|]|]; inversion H; subst. reflexivity.
+  - destruct (nget av i) as [xi|]; inversion H; subst. destruct xi; reflexivity.
+Qed.
+
+(* ============================================================================================ final statements *)
+Lemma invoked_filter e : invoked (filter not_abandon e) = invoked e.
+Proof. induction e as [|a e IH]; simpl; [reflexivity|]. destruct a; simpl; rewrite ?IH; reflexivity. Qed.
+Lemma destroyed_filter e : destroyed (filter not_abandon e) = destroyed e.
+Proof. induction e as [|a e IH]; simpl; [reflexivity|]. destruct a; simpl; rewrite ?IH; reflexivity. Qed.
+Lemma invoked_concat_filter l : invoked (concat (map (filter not_abandon) l)) = invoked (concat l).
+Proof. induction l as [|e l IH]; simpl; [reflexivity|]. rewrite !invoked_app, invoked_filter, IH. reflexivity. Qed.
+Lemma destroyed_concat_filter l : destroyed (concat (map (filter not_abandon) l)) = destroyed (concat l).
+Proof. induction l as [|e l IH]; simpl; [reflexivity|]. rewrite !destroyed_app, destroyed_filter, IH. reflexivity. Qed.
+
+Lemma owned_nil_no_owner av i t : owned av = [] -> nget av i = Some (Some t) -> False.
+Proof.
+  revert i; induction av as [|a r IH]; intros i O H.
+  - unfold nget in H. destruct i; discriminate.
+  - rewrite owned_cons in O. apply app_eq_nil in O. destruct O as [O1 O2]. destruct i.
+    + unfold nget in H; simpl in H. subst a. discriminate.
+    + apply (IH i O2). exact H.
+Qed.
+
+Lemma cnt_init nv : cnt (init nv) (ainit nv) = 0.
+Proof. unfold cnt, init, ainit; simpl. rewrite owned_repeat_none. reflexivity. Qed.
+
+(* Everything at once: a sequence that respects the protocol runs on the concrete model, its events about stored
+   callables are exactly the protocol's events, all events are aligned, the ledgers see no misuse, the accounting
+   is exact, the owner of each callable holds bytes designating that (live) callable. *)
+Lemma once_main o nv ops av aevss : oracle_ok o -> types_ok ops = true -> arun (ainit nv) ops = Some (av, aevss) ->
+  exists s evss, run o (init nv) ops = Some (s, evss) /\
+    map project evss = map (filter not_abandon) aevss /\
+    forallb (forallb ev_aligned) evss = true /\
+    ok (st_led s) /\ ok (st_heap s) /\
+    n_ctor (st_led s) - n_dtor (st_led s) = Z.of_nat (length (owned av)) + Z.of_nat (length (abandoned (concat aevss))) /\
+    (forall i t, nget av i = Some (Some t) ->
+       exists p, nget (st_vars s) i = Some (Some p) /\ p_tag p = t /\ lget (st_led s) (p_ser p) = Alive) /\
+    (forall i, nget av i = None <-> nget (st_vars s) i = None) /\
+    (abandoned (concat aevss) = [] -> owned av = [] ->
+       balanced (st_led s) /\ balanced (st_heap s) /\ n_ctor (st_led s) = n_dtor (st_led s)) /\
+    (forall i t, nget av i = Some (Some t) ->
+       exists s2 evs, step o s (OCall i) = Some (s2, evs) /\ project evs = [AInvoke t; ADestroy t] /\
+                      forallb ev_aligned evs = true).
+Proof.
+  intros OK T H.
+  destruct (run_sim o ops (init nv) (ainit nv) [] av aevss OK (sim_init nv) T H) as [s [evss [abl [R [S [P [A [C B]]]]]]]].
+  rewrite cnt_init in C. unfold cnt in C.
+  destruct (sim_errs _ _ _ S) as [EL EH]. destruct (sim_linv _ _ _ S) as [LL LH].
+  exists s, evss. split; [exact R|]. split; [exact P|]. split; [exact A|]. split; [exact EL|]. split; [exact EH|].
+  split; [lia|]. split.
+  { intros i t Hi. destruct (sim_own _ _ _ S i t Hi) as [p [Hv [Ht [AL _]]]]. exists p. auto. }
+  split; [apply (sim_scope _ _ _ S)|]. split.
+  { intros NA NO. rewrite NA, NO in C. simpl in C.
+    assert (E : n_ctor (st_led s) = n_dtor (st_led s)) by lia.
+    split; [apply (linv_ok_balanced _ LL EL); exact E|]. split; [|exact E].
+    intros b. destruct (is_live (lget (st_heap s) b)) eqn:L; [|reflexivity]. exfalso.
+    rewrite (B NA) in S.
+    destruct (sim_live_heap _ _ _ S b L) as [[i [t [p [[Ha _] _]]]] | []].
+    eapply owned_nil_no_owner; eauto. }
+  intros i t Hi.
+  destruct (step_invoke o s av abl i t true OK S Hi) as [s2 [evs [abl2 [St [_ [Pj [Al _]]]]]]].
+  exists s2, evs. split; [exact St|]. split; [exact Pj | exact Al].
+Qed.
+
+(* the accounting consequence: what is left alive is exactly what is still owned plus what was abandoned *)
+Lemma once_live_count o nv ops av aevss s evss : oracle_ok o -> types_ok ops = true ->
+  arun (ainit nv) ops = Some (av, aevss) -> run o (init nv) ops = Some (s, evss) ->
+  live_count (st_led s) = Z.of_nat (length (owned av)) + Z.of_nat (length (abandoned (concat aevss))).
+Proof.
+  intros OK T H R.
+  destruct (run_sim o ops (init nv) (ainit nv) [] av aevss OK (sim_init nv) T H) as [s' [evss' [abl [R' [S [_ [_ [C _]]]]]]]].
+  rewrite R in R'. inversion R'; subst s' evss'. rewrite cnt_init in C. unfold cnt in C.
+  destruct (sim_errs _ _ _ S) as [EL _]. destruct (sim_linv _ _ _ S) as [LL _].
+  rewrite <- (linv_ok_live _ LL EL). lia.
+Qed.
+
+(* the same with the concrete run given *)
+Lemma once_main_run o nv ops av aevss s evss : oracle_ok o -> types_ok ops = true ->
+  arun (ainit nv) ops = Some (av, aevss) -> run o (init nv) ops = Some (s, evss) ->
+    map project evss = map (filter not_abandon) aevss /\
+    forallb (forallb ev_aligned) evss = true /\
+    ok (st_led s) /\ ok (st_heap s) /\
+    (forall i t, nget av i = Some (Some t) ->
+       exists p, nget (st_vars s) i = Some (Some p) /\ p_tag p = t /\ lget (st_led s) (p_ser p) = Alive) /\
+    (abandoned (concat aevss) = [] -> owned av = [] ->
+       balanced (st_led s) /\ balanced (st_heap s) /\ n_ctor (st_led s) = n_dtor (st_led s)) /\
+    (forall i t, nget av i = Some (Some t) ->
+       exists s2 evs, step o s (OCall i) = Some (s2, evs) /\ project evs = [AInvoke t; ADestroy t] /\
+                      forallb ev_aligned evs = true).
+Proof.
+  intros OK T H R. destruct (once_main o nv ops av aevss OK T H) as [s' [evss' [R' X]]].
+  rewrite R in R'. inversion R'; subst s' evss'. tauto.
+Qed.
+
+Lemma at_most_once_proof : forall o nv ops av aevss s evss, oracle_ok o -> types_ok ops = true -> NoDup (make_tags ops) ->
+  arun (ainit nv) ops = Some (av, aevss) -> run o (init nv) ops = Some (s, evss) ->
+  map (fun e => invoked (project e)) evss = map invoked aevss /\
+  NoDup (invoked (concat (map project evss))).
+Proof.
+  intros o nv ops av aevss s evss OK T ND H R.
+  destruct (once_main_run o nv ops av aevss s evss OK T H R) as [P _].
+  destruct (protocol_once nv ops av aevss H ND) as [NI _]. split.
+  - rewrite <- (map_map project invoked), P, map_map. apply map_ext. intros e. apply invoked_filter.
+  - rewrite P, invoked_concat_filter. exact NI.
+Qed.
+
+Lemma destroy_once_proof : forall o nv ops av aevss s evss, oracle_ok o -> types_ok ops = true -> NoDup (make_tags ops) ->
+  arun (ainit nv) ops = Some (av, aevss) -> run o (init nv) ops = Some (s, evss) ->
+  map (fun e => destroyed (project e)) evss = map destroyed aevss /\
+  NoDup (destroyed (concat (map project evss))) /\
+  ok (st_led s) /\ ok (st_heap s) /\
+  Permutation (make_tags ops) (destroyed (concat aevss) ++ abandoned (concat aevss) ++ owned av) /\
+  (abandoned (concat aevss) = [] -> owned av = [] ->
+     balanced (st_led s) /\ balanced (st_heap s) /\ n_ctor (st_led s) = n_dtor (st_led s)).
+Proof.
+  intros o nv ops av aevss s evss OK T ND H R.
+  destruct (once_main_run o nv ops av aevss s evss OK T H R) as [P [_ [OL [OH [_ [B _]]]]]].
+  destruct (protocol_once nv ops av aevss H ND) as [_ [NDd PM]]. split.
+  - rewrite <- (map_map project destroyed), P, map_map. apply map_ext. intros e. apply destroyed_filter.
+  - split; [rewrite P, destroyed_concat_filter; exact NDd|]. auto.
+Qed.
+
+Lemma aligned_proof : forall o nv ops av aevss s evss, oracle_ok o -> types_ok ops = true ->
+  arun (ainit nv) ops = Some (av, aevss) -> run o (init nv) ops = Some (s, evss) ->
+  forallb (forallb ev_aligned) evss = true.
+Proof. intros o nv ops av aevss s evss OK T H R. apply (once_main_run o nv ops av aevss s evss OK T H R). Qed.
+
+Lemma move_transfers_proof : forall o nv ops av aevss s evss, oracle_ok o -> types_ok ops = true ->
+  arun (ainit nv) ops = Some (av, aevss) -> run o (init nv) ops = Some (s, evss) ->
+  forall i t, nget av i = Some (Some t) ->
+    (exists p, nget (st_vars s) i = Some (Some p) /\ p_tag p = t /\ lget (st_led s) (p_ser p) = Alive) /\
+    (exists s2 evs, step o s (OCall i) = Some (s2, evs) /\ project evs = [AInvoke t; ADestroy t] /\
+                    forallb ev_aligned evs = true).
+Proof.
+  intros o nv ops av aevss s evss OK T H R i t Hi.
+  destruct (once_main_run o nv ops av aevss s evss OK T H R) as [_ [_ [_ [_ [O [_ C]]]]]]. split; auto.
+Qed.
+
+Lemma protocol_runs_proof : forall o nv ops av aevss, oracle_ok o -> types_ok ops = true ->
+  arun (ainit nv) ops = Some (av, aevss) -> exists s evss, run o (init nv) ops = Some (s, evss).
+Proof. intros o nv ops av aevss OK T H. destruct (once_main o nv ops av aevss OK T H) as [s [evss [R _]]]. eauto. Qed.
+
+(* what if neither operator() nor cleanupNotRun() happens: the callable stays alive -- one live object per callable
+   that is still owned or was abandoned, so the run is balanced iff there is none *)
+Lemma neither_leaks_proof : forall o nv ops av aevss s evss, oracle_ok o -> types_ok ops = true ->
+  arun (ainit nv) ops = Some (av, aevss) -> run o (init nv) ops = Some (s, evss) ->
+  live_count (st_led s) = Z.of_nat (length (owned av)) + Z.of_nat (length (abandoned (concat aevss))) /\
+  (balanced (st_led s) <-> owned av = [] /\ abandoned (concat aevss) = []).
+Proof.
+  intros o nv ops av aevss s evss OK T H R.
+  pose proof (once_live_count o nv ops av aevss s evss OK T H R) as C. split; [exact C|].
+  destruct (run_sim o ops (init nv) (ainit nv) [] av aevss OK (sim_init nv) T H) as [s' [evss' [abl [R' [S _]]]]].
+  rewrite R in R'. inversion R'; subst s' evss'. destruct (sim_linv _ _ _ S) as [[W _] _]. split.
+  - intros B. apply balanced_complete in B; [|exact W]. unfold balancedb in B. apply Z.eqb_eq in B.
+    destruct (owned av), (abandoned (concat aevss)); simpl in *; auto; lia.
+  - intros [E1 E2]. apply balancedb_sound. unfold balancedb. rewrite C, E1, E2. reflexivity.
+Qed.
+
+Lemma oracle0_ok : oracle_ok oracle0.
+Proof.
+  unfold oracle_ok, oracle0; cbn [vaddr pool_addr malloc_ret]. split; [|split].
+  - intros i. exists (Z.of_nat i + 3). ring.
+  - intros K b. exists (b + 5). ring.
+  - intros b. pose proof (Z.mod_pos_bound b 1000000 ltac:(lia)) as M.
+    change (2 ^ 63) with 9223372036854775808. lia.
 Qed.
